@@ -49,6 +49,8 @@ ASSUMPTIONS = [
     "a dotted path returned by Griffe denotes the object found by following it through the loaded, alias-resolved "
     "collection (DESIGN 4/C04); the property's 'path justified by a definition or import in scope' is checked through "
     "that: the path must exist and end at CPython's object, and unknown names / builtins must come back unchanged",
+    "stub-only variant: modules listed in case['stubs'] are loaded by Griffe from .pyi / __init__.pyi files with the same "
+    "text that CPython imports as .py (a stub has the scoping of the module it describes)",
     "packages avoid every shape of the C05 loader findings (wildcards only from plain modules, plain __all__ lists), so "
     "that C04 does not depend on the pending C05 fixes",
     "scope classes may inherit from each other, but no attribute access goes through inheritance; attribute segments "
@@ -166,14 +168,20 @@ def check_case(case) -> list[Fail]:
         except G.CPythonImportError as exc:
             raise HarnessError(f"generated package is not importable: {exc}") from exc
         expected = mods["$after"]
+        stubs = case.get("stubs") or ()
+        if stubs:
+            # same text, but the listed modules exist only as .pyi / __init__.pyi in the tree Griffe loads
+            groot = root.with_name(root.name + "_g")
+            shutil.rmtree(groot, ignore_errors=True)
+            G.write_files(groot, G.render(case, top, stubs))
         pkg = call(
-            "total", griffe.load, top, search_paths=[str(root)], allow_inspection=False, resolve_aliases=True,
+            "total", griffe.load, top, search_paths=[str(groot if stubs else root)], allow_inspection=False, resolve_aliases=True,
             resolve_implicit=True, what="griffe.load(resolve_aliases=True, resolve_implicit=True)",
         )
         coll = pkg.modules_collection
         fails: list[Fail] = []
         norm = lambda s: str(s).replace(top, "P")  # noqa: E731
-        src_text = lambda: G.show(case, "P")  # noqa: E731
+        src_text = lambda: G.show(case, "P") + (f"\n# stub-only (.pyi) in the tree Griffe loads: {list(stubs)}" if stubs else "")  # noqa: E731
         info = S.site_info(case)
         for modpath, qual, st_ in S.all_sites(case):
             for site in st_["sites"]:
@@ -184,7 +192,12 @@ def check_case(case) -> list[Fail]:
                 try:
                     gobj = coll.get_member(spath)
                 except KeyError:
-                    raise HarnessError(f"site object {spath} not in the Griffe tree\n{G.show(case, top)}") from None
+                    # the module / class / attribute that holds the expression was not loaded at all
+                    fails.append(
+                        Fail("resolves", "site-object-missing", f"{norm(spath)}: the object holding `{norm(site['expr'])}` is not in the loaded tree\n{src_text()}",
+                             {"site": sid, "what": what})
+                    )
+                    continue
                 exp = expected[(sid, what)]
                 text = site["expr"].replace("$TOP", top)
                 where = f"{norm(spath)} [{what}] `{norm(text)}`"
@@ -281,6 +294,7 @@ def check_case(case) -> list[Fail]:
                     )
         return fails
     finally:
+        shutil.rmtree(root.with_name(root.name + "_g"), ignore_errors=True)
         shutil.rmtree(own or root, ignore_errors=True)
 
 
@@ -311,6 +325,7 @@ def strategy(ctx):
     return S.cases(avoid=avoid, on_excluded=ctx.excluded), "c04"
 
 
+_STUB_LABEL = "stub-only-modules"
 _NONTRIVIAL = ("shadowed", "import-as", "import-dotted", "relative-import", "re-export-chain", "via-module-alias", "dotted-module-path")
 
 
@@ -329,6 +344,11 @@ def describe(case):
                 labels.add("feature:" + (f if not f.startswith("relative-import") else f))
                 if f.startswith(_NONTRIVIAL):
                     nontrivial = True
+    if case.get("stubs"):
+        labels.add(_STUB_LABEL)
+        by = {m["path"]: m for m in case["mods"]}
+        if any(by[p]["pkg"] for p in case["stubs"]):
+            labels.add("stub-only-package(__init__.pyi)")
     labels.add(f"sites={min(n, 8)}{'+' if n >= 8 else ''}")
     labels.add(f"modules={len(case['mods'])}")
     sample = {"files": G.render(case, "P")} if nontrivial else None
